@@ -114,6 +114,29 @@ def analyse(doc):
             p = (ni(e[0]), ni(z[0]))
             if p not in backend_pairs:
                 backend_pairs.append(p)
+    # builtin functions: (English name, Chinese name) sharing one builtin id (the two tables the checker indexes by id)
+    builtin_pairs = []
+    for row in doc.get("builtin_tables", []):
+        f = row.split()
+        if len(f) == 3 and f[1] != "-" and f[2] != "-":
+            builtin_pairs.append((ni(f[1].split("/")[0]), ni(f[2].split("/")[0])))
+    # every case clause / comparison chain of the code base made of token.K_ names, as name indices
+    k_clauses, k_where = [], []
+    for g in doc.get("k_name_clauses", []):
+        vals = []
+        for t in g["tokens"]:
+            c = wa_const.get(t) or wz_const.get(t)
+            vals.append(ni(c["Value"]) if c else ni("?" + t))
+        k_clauses.append(vals)
+        k_where.append("%s %s: %s" % (g["where"], g["kind"], " ".join(g["tokens"])))
+    en_b = {e for e, _ in builtin_pairs}
+    open_clauses = []
+    for cl, wh in zip(k_clauses, k_where):
+        if not any(x in en_b for x in cl):
+            continue
+        for e, z in builtin_pairs:
+            if (e in cl) != (z in cl):
+                open_clauses.append("%s — has %s without %s" % (wh, names[e] if e in cl else names[z], names[z] if e in cl else names[e]))
     # consumer clauses mentioning a Zh token
     tid = {r["name"]: r["id"] for r in en + zh + ops}
     clauses = []
@@ -138,6 +161,7 @@ def analyse(doc):
     return {"en": en, "zh_rows": zh_rows, "ops": ops, "names": names, "descs": descs, "tabs": tabs,
             "doc_pairs": doc_pairs, "backend_pairs": backend_pairs, "clauses": clauses,
             "doc_mismatch": doc_mismatch, "backend_mismatch": backend_mismatch, "wzen_mismatch": wzen_mismatch,
+            "builtin_pairs": builtin_pairs, "k_clauses": k_clauses, "k_where": k_where, "open_builtin_clauses": open_clauses,
             "documented_undefined": documented_undefined, "ident_map": ident_map, "tokname": tokname,
             "toktext": toktext, "backend_groups": backend_groups, "tid": tid,
             "english_without_chinese": sorted(
@@ -226,6 +250,14 @@ def write_lean(doc, path):
     w("/-- (English name, Chinese name) handled by one case of the WAT back end's builtin dispatch -/")
     w("def backendPairs : List (Nat × Nat) := [")
     w(",\n".join("  (%d, %d) /- %s = %s -/" % (e, z, a["names"][e], a["names"][z]) for (e, z) in a["backend_pairs"]))
+    w("]")
+    w("/-- (English builtin name, Chinese builtin name) registered under one builtin id -/")
+    w("def builtinPairs : List (Nat × Nat) := [")
+    w(",\n".join("  (%d, %d) /- %s = %s -/" % (e, z, a["names"][e], a["names"][z]) for (e, z) in a["builtin_pairs"]))
+    w("]")
+    w("/-- every `case` list / comparison chain of the whole code base whose members are token.K_ names (as name indices) -/")
+    w("def kNameClauses : List (List Nat) := [")
+    w(",\n".join("  %s /- %s -/" % (nat_list(c), wh) for c, wh in zip(a["k_clauses"], a["k_where"])))
     w("]")
     w("/-- the generator's own evaluation (python) — the kernel re-evaluates these in Props/C09.lean -/")
     w("def docPairsMismatchClaim : List (Nat × Nat) := [%s]" % ", ".join(
